@@ -151,6 +151,12 @@ def h_registry_step(S, B):
                 newref.append((k, v))
             reference = newref
             reference.append((new_id, target))
+            if st1 == "weak" and tname != "O1" and not any(v is O1 for k, v in reference) and S.flag("then_the_replaced_weak_object_is_collected"):
+                # the weakly registered object that was just replaced under its id goes away: nothing else changes
+                S.cover("replaced-weak-object-collected")
+                O1 = None
+                pool["O1"] = None
+                gc.collect()
     elif op == "unregister-object":
         tname = S.choice("target", ["O1", "O2", "O3", "O4", "DaemonObject"])
         target = dobj if tname == "DaemonObject" else pool[tname]
@@ -262,7 +268,7 @@ STUBS = [st for st in rig.STUBS if st[1] in ("uuid4", "UUID", "format_traceback"
 
 SPECS = [
     Spec("registry_step", h_registry_step, {"quick": {"L": 2, "L2": 11}, "thorough": {"L": 3, "L2": 12}},
-         covers=["op:register", "op:unregister-object", "op:unregister-id", "op:collect-O1",
+         covers=["op:register", "op:unregister-object", "op:unregister-id", "op:collect-O1", "replaced-weak-object-collected",
                  "check:id-reaches-its-object", "check:registered-object-travels-as-proxy",
                  "check:duplicate-registration-is-refused-unless-forced", "check:unregistered-object-travels-by-value"],
          native_patch=env.native_env, reset=_reset,
